@@ -3,7 +3,7 @@
    on every run (build/C13/Gen_C13.v proves fs = all five and hs within fs).  Statements only. *)
 From Coq Require Import String.
 From Coq Require Import ZArith QArith List Bool.
-From BS Require Import Core.Base Core.GridQ Model.Arch Proofs.ArchProofs.
+From BS Require Import Core.Base Core.GridQ Model.Arch Proofs.ArchProofs Model.Builders Proofs.BuildersProofs.
 Import ListNotations.
 
 Theorem C13_eq_reflexive : forall fs a, layout_eqb_on fs a a = true.
@@ -51,6 +51,16 @@ Theorem C13_bounding_box_tight : forall l a b c d,
   (exists e x y, In e (entries l) /\ In (x, y) (positions (geom (snd e))) /\ y == d).
 Proof. exact bbox_tight. Qed.
 
+(* the library builders (models of C14): accepted by the constructor, hence coherent by
+   C13_index_coherent - except Gemini logical, whose tables are extended after construction and
+   contain two names per reservoir grid (recorded known finding) *)
+Theorem C13_single_zone_layout_accepted : forall nx ny s, is_ok (build_index (lay (single_col_spec nx ny s))) = true.
+Proof. exact single_index_ok. Qed.
+Theorem C13_gemini_base_layout_accepted : is_ok (build_index (lay gemini_base_spec)) = true.
+Proof. exact gemini_base_index_ok. Qed.
+Theorem C13_gemini_logical_layout_refuted : build_index (lay gemini_logical_spec) = Err EValue.
+Proof. exact gemini_logical_index_refuted. Qed.
+
 Example C13_example :
   let g0 := GPlain (from_positions [0; 2] [0; 3 # 2]) in
   let g1 := GSub (from_positions [0; 2] [0; 3 # 2]) [0%nat; 1%nat] [0%nat; 1%nat] in
@@ -71,3 +81,6 @@ Print Assumptions C13_archspec_eq_transitive.
 Print Assumptions C13_constructor_accepts_iff.
 Print Assumptions C13_index_coherent.
 Print Assumptions C13_bounding_box_tight.
+Print Assumptions C13_single_zone_layout_accepted.
+Print Assumptions C13_gemini_base_layout_accepted.
+Print Assumptions C13_gemini_logical_layout_refuted.
